@@ -19,10 +19,10 @@ export PV.UThreadSpec (S Out create spawn ref drop current exit join threadEnd k
 end Sp
 
 structure Pend where
-  t : Tid
+  t : Nat
   what : String
-  k : Kid
-  v : Val
+  k : Nat
+  v : Nat
 
 structure St where
   m : State := init
@@ -36,7 +36,7 @@ inductive Res
 
 /-- run model events, collecting the native TLS calls they stand for -/
 def nativeOf (s : State) (e : Ev) (s' : State) : List String :=
-  let lib (t : Tid) : List String :=     -- p_uthread_current: getspecific (+ setspecific of a fresh handle)
+  let lib (t : Nat) : List String :=     -- p_uthread_current: getspecific (+ setspecific of a fresh handle)
     match (s.key 0).published with
     | some n => ["gs" ++ toString n] ++ (if s.tls t n = 0 then ["ss" ++ toString n ++ ":H"] else [])
     | none => []
@@ -78,7 +78,7 @@ def runEvs (s : State) (es : List Ev) : Res :=
   go s [] es
 
 /-- the slow path of `pp_uthread_get_tls_key` when the key has no native key yet -/
-def needKey (s : State) (t : Tid) (k : Kid) : List Ev :=
+def needKey (s : State) (t : Nat) (k : Nat) : List Ev :=
   match (s.key k).published with
   | some _ => []
   | none => [.keyCreate t k, .keyCas t k]
@@ -115,10 +115,10 @@ def lastJoin (m : State) : String := match m.joinLog.getLast? with | some x => t
 def lastGet (m : State) : String := match m.getLog.getLast? with | some x => toString x.2.2 | none => "?"
 def lastCur (m : State) : String := match m.curLog.getLast? with | some x => "H" ++ toString x.2 | none => "?"
 
-def isPending (s : St) (t : Tid) : Bool := s.pend.any (·.t = t)
+def isPending (s : St) (t : Nat) : Bool := s.pend.any (·.t = t)
 
 /-- finish a TLS call on the model and the spec; returns (events, spec update) -/
-def tlsOp (what : String) (t : Tid) (k : Kid) (v : Val) : Option Ev :=
+def tlsOp (what : String) (t : Nat) (k : Nat) (v : Nat) : Option Ev :=
   match what with
   | "set" => some (.setLocal t k v)
   | "replace" => some (.replaceLocal t k v)
@@ -127,7 +127,7 @@ def tlsOp (what : String) (t : Tid) (k : Kid) (v : Val) : Option Ev :=
   | "start" => some (.start t)
   | _ => none
 
-def specTls (sp : PV.UThreadSpec.S) (what : String) (t : Tid) (k : Kid) (v : Val) : PV.UThreadSpec.S × Sp.Out × String :=
+def specTls (sp : PV.UThreadSpec.S) (what : String) (t : Nat) (k : Nat) (v : Nat) : PV.UThreadSpec.S × Sp.Out × String :=
   match what with
   | "set" => (Sp.setLocal sp t k v, {}, "-")
   | "replace" => let r := Sp.replaceLocal sp t k v; (r.1, r.2, "-")
@@ -135,7 +135,7 @@ def specTls (sp : PV.UThreadSpec.S) (what : String) (t : Tid) (k : Kid) (v : Val
   | "current" => let r := Sp.current sp t; (r.1, {}, "H" ++ toString r.2)
   | _ => (sp, {}, "-")
 
-def keyOf (what : String) (k : Kid) : Kid := if what = "current" ∨ what = "start" then 0 else k
+def keyOf (what : String) (k : Nat) : Nat := if what = "current" ∨ what = "start" then 0 else k
 
 def step (s : St) (toks : List String) : IO (St × Bool) := do
   let bad : IO (St × Bool) := do IO.println "bad-op"; return (s, false)
